@@ -58,9 +58,14 @@ func refParseLine(line string) (refRule, bool) {
 		r.ok = false
 	}
 	r.segs = strings.Split(p, "/")
-	for _, s := range r.segs {
+	for i, s := range r.segs {
 		if s != "**" && strings.Contains(s, "**") {
-			r.ok = false
+			// "name**" as the very last thing of a pattern: name, then anything (also across '/')
+			pre := strings.TrimSuffix(s, "**")
+			tail := i == len(r.segs)-1 && !r.dirForm && strings.HasSuffix(s, "**") && pre != "" && !strings.Contains(pre, "*")
+			if !tail {
+				r.ok = false
+			}
 		}
 		if s == "" {
 			r.ok = false // doubled slash inside a pattern: outside the documented language
@@ -94,6 +99,16 @@ func segMatch(pat, s string) bool {
 func segsMatch(pat, path []string) bool {
 	if len(pat) == 0 {
 		return len(path) == 0
+	}
+	if len(pat) == 1 && pat[0] != "**" && strings.HasSuffix(pat[0], "**") {
+		pre := strings.TrimSuffix(pat[0], "**")
+		rest := strings.Join(path, "/")
+		for i := 0; i <= len(rest); i++ {
+			if !strings.Contains(rest[:i], "/") && segMatch(pre, rest[:i]) {
+				return true
+			}
+		}
+		return false
 	}
 	if pat[0] == "**" {
 		if len(pat) == 1 {
